@@ -67,6 +67,20 @@ structure Route where
   body : Bool
   query : Bool
   rateLimited : Bool
+  /-- every access filter of the `and`-chain stands before the first body filter
+  (`body::content_length_limit` / `body::json`) -/
+  authBeforeBody : Bool
+  deriving DecidableEq, Repr
+
+/-- a closure route of `crates/varpulis-cli/src/main.rs` (`/health`, `/ready`, `/metrics`, `/ws`) -/
+structure MainRoute where
+  fn : String               -- enclosing function (server mode / coordinator mode)
+  name : String
+  method : Option Method
+  path : List Seg
+  ended : Bool               -- `path::end()` present (otherwise the pattern is a prefix)
+  access : List String       -- access filters in the chain, e.g. `auth::with_auth`
+  rateLimited : Bool
   deriving DecidableEq, Repr
 
 /-- the access an endpoint requires (the vocabulary of docs/api/openapi.yaml) -/
@@ -333,6 +347,25 @@ def headsLiteral (docs : List DocRoute) (table : List Route) : Bool :=
 
 def docsUnambiguous (docs : List DocRoute) : Bool :=
   docs.all fun d => docs.all fun e => !(d.method == e.method && d.path == e.path) || d.req == e.req
+
+/-! ### the closure routes of main.rs -/
+
+/-- every documented operation outside `/api/` (`/health`, `/ready`) is a closure route of main.rs with the
+same method, no access filter, and is documented as open -/
+def closureDocAgree (docs : List DocRoute) (mains : List MainRoute) : Bool :=
+  docs.all fun d => isApiPath d.path || (d.req == .open &&
+    mains.any fun m => m.path == d.path && m.method == some d.method && m.access.isEmpty)
+
+/-- the closure routes are GET probes without access filter, except `/ws`, which carries `auth::with_auth` -/
+def closureAccessOk (mains : List MainRoute) : Bool :=
+  mains.all fun m =>
+    if m.path == [.lit "ws"] then m.access == ["auth::with_auth"]
+    else m.access.isEmpty && m.method == some .get
+
+/-- the closure routes are mounted BEFORE the route trees and most of them are prefix patterns (no
+`path::end()`): none of them may start like a route of the trees, or it would answer in its place -/
+def closureDisjoint (mains : List MainRoute) (table : List Route) : Bool :=
+  mains.all fun m => table.all fun r => r.path.head? != m.path.head?
 
 /-- the documented requirement of a *request* (first documented pattern that matches; raft by rule) -/
 def docReqOfRequest (docs : List DocRoute) (q : Request) : Option Req :=
